@@ -34,8 +34,9 @@ package rosmar
 //@   ensures [C11:$fn.scoped]          stmtsScoped(c.id)
 //@   ensures [C03,C10:$fn.onetxn]      oneTxn() && sqlAllInTxn() && lockedThroughout("c.bucket.mutex")
 //@   ensures [C10:$fn.commit-first]    $err == nil && db != old(db) ==> committed
-//@   ensures [C04:$fn.cas-fresh]       r2 != r ==> r2.cas == newCas && newCas > old(hlc.highestTime) && casDrawnInTxn()
+//@   ensures [C03,C04,C15:$fn.cas-fresh]       r2 != r ==> r2.cas == newCas && newCas > old(hlc.highestTime) && casDrawnInTxn()
 //@   ensures [C04,C10,C12:$fn.lastcas] r2 != r ==> bucketLastCas == newCas && collLast(c.id) == newCas
+//@   ensures [C04,C10:$fn.mark-never-lowered] old(bucketLastCas) <= old(hlc.highestTime) ==> bucketLastCas >= old(bucketLastCas)
 //@   ensures [C17:$fn.rev]             r2 != r ==> r2.rev == nextrev(r)
 //@   ensures [C08,C17:$fn.event]           $err == nil && r2 != r ==> lenlist(posted) == 1 && posted[0] == eventOf(key, r2) && postsAfterCommit()
 //@   ensures [C08:$fn.noevent]         r2 == r ==> lenlist(posted) == 0
@@ -208,6 +209,8 @@ package rosmar
 //@   ensures [C03,C10:touch.onetxn]     oneTxn() && sqlAllInTxn() && lockedThroughout("c.bucket.mutex")
 //@   ensures [C01,C14,C17:touch.effect] err == nil ==> hasBody(r) && val == r.value && cas == r.cas && r2 == (r with {exp: absexp(exp, now), rev: r.rev + 1})
 //@   ensures [C01:touch.missing]        !hasBody(r) ==> err != nil
+//@   ensures [C14:touch.armed]          err == nil ==> *c.bucket.expManager.nextExp == (if absexp(exp, now) != 0 && (old(*c.bucket.expManager.nextExp) == 0 || absexp(exp, now) < old(*c.bucket.expManager.nextExp)) then absexp(exp, now) else old(*c.bucket.expManager.nextExp))
+//@   ensures [C14:touch.not-armed-on-error] err != nil ==> *c.bucket.expManager.nextExp == old(*c.bucket.expManager.nextExp)
 //@   ensures [C20:touch.unlocked]       any: nolocks()
 //@
 //@ fn (*Collection).Incr
@@ -288,6 +291,7 @@ package rosmar
 //@   ensures [C01,C05,C07,C14,C17:writeWithMeta.stored] result == nil ==> sameDoc(r2, Row{present: true, rowid: 0, value: body, cas: newCas, exp: absexp(exp, now), xattrs: xattrs, isJSON: b2i(isJSON), tombstone: b2i(isDeletion), rev: nextrev(r)})
 //@   ensures [C08,C17:writeWithMeta.event]           result == nil ==> lenlist(posted) == 1 && posted[0] == eventOf(key, r2) && postsAfterCommit()
 //@   ensures [C12:writeWithMeta.lastcas]         result == nil ==> collLast(c.id) >= newCas
+//@   ensures [C04,C10:writeWithMeta.mark-never-lowered] bucketLastCas >= old(bucketLastCas) && forall i: Int :: collLast(i) >= old(collLast(i))
 //@   ensures [C20:writeWithMeta.unlocked]        any: nolocks()
 
 // ---------------------------------------------------------------------------------------------------------------
@@ -503,6 +507,7 @@ package rosmar
 //@   ensures [C14,C20:closeDB.stops-timer]   !isnull(bucket.expManager.timer) ==> count("timer.stop") == 1
 //@   ensures [C16,C20:closeDB.closes-db]     count("dbclose") == 1
 //@   ensures [C20:closeDB.order]             tracepos("timer.stop") < tracepos("dbclose") || isnull(bucket.expManager.timer)
+//@   ensures [C13,C20:closeDB.handle-stays-in-place] bucket.sqliteDB == old(bucket.sqliteDB)
 //@
 //@ fn (*Collection).close
 //@   modular
@@ -621,7 +626,7 @@ package rosmar
 //@   ensures [C11:wwx.scoped]             stmtsScoped(c.id)
 //@   ensures [C03,C07,C10:wwx.onetxn]     oneTxn() && sqlAllInTxn() && lockedThroughout("c.bucket.mutex")
 //@   ensures [C10:wwx.commit-first]       err == nil ==> committed
-//@   ensures [C04,C07:wwx.cas-fresh]      err == nil ==> r2.cas == newCas && casOut == newCas && newCas > old(hlc.highestTime) && casDrawnInTxn()
+//@   ensures [C03,C04,C07,C15:wwx.cas-fresh]      err == nil ==> r2.cas == newCas && casOut == newCas && newCas > old(hlc.highestTime) && casDrawnInTxn()
 //@   ensures [C04,C10,C12:wwx.lastcas]    err == nil ==> bucketLastCas == newCas && collLast(c.id) == newCas
 //@   ensures [C17:wwx.rev]                err == nil ==> r2.rev == nextrev(r)
 //@   ensures [C08,C17:wwx.event]              err == nil ==> lenlist(posted) == 1 && posted[0] == eventOf(key, r2) && postsAfterCommit()
@@ -886,6 +891,11 @@ package rosmar
 
 //@ fn (*Collection).findView
 //@   modular
+//@   variant tx q=tx
+//@   variant pool q=pool
+//@   ensures [C12:findView.reuses-only-same-source] err == nil && count("ext:NewJSMapFunction") == 0 ==> count("maplookup.present") >= 1 && lastfound().mapFnSource == view.mapFnSource && view.mapFunction == lastfound().mapFunction
+//@   ensures [C12:findView.compiles-stored-source]  err == nil && count("ext:NewJSMapFunction") >= 1 ==> count("ext:NewJSMapFunction") == 1 && extarg("NewJSMapFunction", 1) == view.mapFnSource
+//@   ensures [C12:findView.caches-what-it-returns]  err == nil ==> count("mapupdate") == 1
 //@   ensures [C12:findView.result] err == nil ==> view != nil
 //@   ensures [C12,C20:findView.unlocked] any: nolocks()
 //@ fn parallelize
@@ -976,7 +986,7 @@ package rosmar
 //@
 //@ fn (*Collection).withNewCas
 //@   requires hlc.highestTime < 9223372036854775807
-//@   ensures [C04:withNewCas.draw-in-txn]     count("callback") == 1 ==> count("hlcnow") == 1 && casDrawnInTxn() && callbackarg(1) == newCas && newCas > old(hlc.highestTime)
+//@   ensures [C03,C04,C08,C15:withNewCas.draw-in-txn]     count("callback") == 1 ==> count("hlcnow") == 1 && casDrawnInTxn() && callbackarg(1) == newCas && newCas > old(hlc.highestTime)
 //@   ensures [C04,C10,C12:withNewCas.lastcas] result == nil ==> committed && bucketLastCas == newCas && collLast(c.id) == newCas
 //@   ensures [C08:withNewCas.posts-after-commit] count("post") <= 1 && postsAfterCommit() && (count("post") == 1 ==> result == nil)
 //@   ensures [C08:withNewCas.posts-callback-event] result == nil && !isnull(cbret(0)) ==> count("post") == 1
